@@ -2423,6 +2423,7 @@ impl Formatter {
   pub fn argument(&mut self, node: &(Option<Identifier>, Expression)) -> String {
     let (name, expr) = node;
     let n = match name {
+      Some(ident) if !self.html => format!("{}: ", ident.to_string()),
       Some(ident) => ident.to_string(),
       None => "".to_string(),
     };
